@@ -6,6 +6,7 @@ import shutil
 import tempfile
 
 from vlib.units import unit
+from vlib import mk
 
 U = 'compiler/universe.py'
 P = 'parser_py/parse.py'
@@ -14,7 +15,7 @@ CL = 'common/concertina_lib.py'
 
 # ---------------------------------------------------------------- C17: Ground / Dataset / AttachedDatabases
 def mk_ann(mod, engine='sqlite', ground=None, dataset=None, attach=None):
-  a = mod.Annotations.__new__(mod.Annotations)
+  a = mk.annotations(mod)
   d = {k: {} for k in mod.Annotations.ANNOTATING_PREDICATES}
   d['@Engine'][engine] = {'__rule_text': '@Engine'}
   for p, g in (ground or {}).items():
@@ -125,7 +126,7 @@ def gen_stop_signal(tier, mod):
     open(full, 'w').write('stop')
     for signal, want in ((None, False), (os.path.join(base, 'absent'), False), (empty, False), (full, True), ('', False)):
       for seen in (False, True):
-        c = mod.Concertina.__new__(mod.Concertina)
+        c = mk.concertina(mod)
         c.action_iteration = {'A': 'it'}
         c.iteration_stop_signal = {'it': signal}
         c.wrench_in_gears = {signal} if (seen and signal) else set()
